@@ -9,3 +9,4 @@ pub mod operation;
 pub mod opmutate;
 pub mod opfixture;
 pub mod adversary;
+pub mod schema_ext;
